@@ -16,4 +16,5 @@ if ! (cd xmc && go build -tags verif -o "../$BIN" . 2>.build.$$.log); then
   fi
 fi
 rm -f xmc/.build.$$.log
+cp "$BIN" bin/xmc.tmp.$$ && mv bin/xmc.tmp.$$ bin/xmc   # latest build, for `bin/xmc replay`
 "$BIN" check "$ID" "$TIER"
